@@ -748,7 +748,7 @@ class Translator:
                                ', '.join('%s %s' % (s.ct.of(s.ltype(f, a)), a) for a in f.args) or 'void')
 
     def emit(s, f):
-        out = [s.signature(f) + ' {']
+        out = ['#ifndef SKIP_%s' % s.cname(f), s.signature(f) + ' {']
         for l, t in f.locals.items():
             if l not in f.args:
                 out.append('  %s %s;' % (s.ct.of(parse_type(t)), l))
@@ -769,6 +769,7 @@ class Translator:
                 out.append('  %s = %s;' % (le, rv))
             for l in s.terminator(f, term): out.append('  ' + l)
         out.append('}')
+        out.append('#endif')
         return '\n'.join(out)
 
     def run(s, roots):
